@@ -6,7 +6,7 @@
 EXTENDS XlAggregates, Json
 CONSTANTS Kind, R
 VARIABLE st
-Kinds == {"I", "D", "N", "X", "S", "T", "F", "B", "E", "H"}
+Kinds == {"I", "D", "N", "Z", "X", "S", "T", "F", "B", "E", "H"}
 TailKinds == {"I", "X", "B"}
 A(r1, c1, r2, c2) == [area |-> <<r1, c1, r2, c2>>, spell |-> "area"]
 Far == [far |-> <<400, 800, 1200>>]                 \* T!A1:B2 holds 100, 200, a text, 300
